@@ -1,6 +1,8 @@
 //! Resource monitors: C13 (step counter against a linear bound) and C17
 //! (counting allocator armed around each call).
 
+#[allow(unused_imports)]
+use crate::prelude::*;
 use crate::case::{Api, Be, Fam};
 use crate::mem::Place;
 use crate::p_sub::{self, judge_allocs, judge_steps, level};
